@@ -25,6 +25,7 @@ The functions get the value of the data type as string and return the correct ob
 """
 
 from __future__ import absolute_import
+import re
 from decimal import Decimal, InvalidOperation
 from types import FunctionType
 
@@ -295,6 +296,9 @@ def numeric_factory(value, datatype_cls, validation_level=None):
     """
     if not value:
         return datatype_cls(validation_level=validation_level)
+    # Decimal also accepts blanks, underscores, exponents, NaN..., which are not valid in HL7
+    if isinstance(value, str) and re.match(r'^[+-]?([0-9]+\.?[0-9]*|\.[0-9]+)\Z', value) is None:
+        raise ValueError('{0} is not an HL7 valid NM value'.format(value))
     try:
         return datatype_cls(Decimal(value), validation_level=validation_level)
     except InvalidOperation:
@@ -326,6 +330,9 @@ def sequence_id_factory(value, datatype_cls, validation_level=None):
     if not value:
         return datatype_cls(validation_level=validation_level)
     try:
+        # int also accepts blanks, underscores and negative numbers, which are not valid in HL7
+        if isinstance(value, str) and re.match(r'^\+?[0-9]+\Z', value) is None:
+            raise ValueError
         return datatype_cls(int(value), validation_level=validation_level)
     except ValueError:
         raise ValueError('{0} is not an HL7 valid SI value'.format(value))
